@@ -12,6 +12,10 @@ package antispam
 // is set, and a matching exception never drops; the counter of a source is
 // incremented at most once per call.
 
+// Without rules an event is refused only after every exception was consulted and none
+// matched (C20: "drops only what the settings say" - an allow-list over a low or zero
+// threshold must be looked at before the threshold decides).
+
 // With rules, the first matching rule decides: no rule is evaluated after one has
 // matched (a later, stricter rule must not override it).
 
@@ -28,7 +32,9 @@ package antispam
 //@   ensures old(a.rules == nil && a.threshold == -1) ==> !result
 //@   ensures g_exc ==> !result
 //@   ensures g_incs <= 1
-//@   loop 1 invariant 0 <= i && !g_exc && g_incs == 0
+//@   ghost nexc int = 0
+//@   ensures result && old(a.rules == nil) ==> nexc == len(a.exceptions)
+//@   loop 1 invariant 0 <= i && !g_exc && g_incs == 0 && nexc == i && i <= len(a.exceptions)
 //@   loop 2 invariant !g_exc && g_incs == 0 && nmatch == 0
 //@   ghost nmatch int = 0
 //@   callee Check(d) (r)
@@ -40,6 +46,7 @@ package antispam
 //@     requires e.CheckSourceName ==> len(data) == len(name) && seqeq(data, name, 0)
 //@     pure
 //@     set g_exc := r
+//@     set nexc := nexc + 1
 //@   callee Int32.Inc() (r)
 //@     requires g_incs == 0 && !isNewSource
 //@     havoc
